@@ -37,6 +37,7 @@ def run_history(w, sc, ps, side, hist, x=5):
     peer_b = peer[:1]
     own_b = {"A": b"A", "B": b"B", "S": b"S"}[side]
     ident = identity_bytes(w, ps)
+    sc.meta["own_is_identity"] = own[1:] == ident
     trace = []
     for op in hist:
         if op == "start":
@@ -71,7 +72,7 @@ def run_history(w, sc, ps, side, hist, x=5):
     return trace
 
 
-def spec_automaton(side, kind, trace):
+def spec_automaton(side, kind, trace, own_is_identity=False):
     """the specification automaton: returns None or a description of the first deviation"""
     started = finished = False
     restored = False
@@ -109,7 +110,11 @@ def spec_automaton(side, kind, trace):
                     if side in "AB" and o != "raise:OffSides":
                         return "finish(%s): %s" % (op, o)
                 elif op == "fin-reflect":
-                    if o != "raise:ReflectionThwarted":
+                    if kind == "ed" and own_is_identity:
+                        # the instance itself sent the identity, which Ed25519 decoding refuses before the reflection test
+                        if o.startswith("ok"):
+                            return "finish(reflected identity) returned a key"
+                    elif o != "raise:ReflectionThwarted":
                         return "finish(reflected): %s" % o
                 elif op == "fin-undec":
                     if o.startswith("ok"):
@@ -153,7 +158,7 @@ def gen_C07(w, tier):
         sc = w.scenario("C07/%s/%s/x%d/%s" % (ps.name, side, x, "-".join(hist)), (tag, "side:" + side, "depth:%d" % len(hist), "scalar:%s" % ("0" if x == 0 else "q-1" if x == ps.q - 1 else "mid")))
         tr = run_history(w, sc, ps, side, hist, x)
         sc.meta.update(trace=tr, side=side, kind=ps.kind)
-        sc.pred = lambda io, sc: spec_automaton(sc.meta["side"], sc.meta["kind"], sc.meta["trace"])
+        sc.pred = lambda io, sc: spec_automaton(sc.meta["side"], sc.meta["kind"], sc.meta["trace"], sc.meta.get("own_is_identity", False))
         out.append(sc)
     for side in "ABS":
         for d in range(1, depth + 1):
